@@ -77,19 +77,9 @@ def p2p_module(reload=False):
         with open(m.__file__, "rb") as f:
             _code = compile(f.read(), m.__file__, "exec")
     elif reload:
-        import sys
-        import types
+        from sim import fresh as F
 
-        old = _p2p
-        m = types.ModuleType(old.__name__)
-        m.__file__ = old.__file__
-        m.__package__ = old.__package__
-        m.__spec__ = old.__spec__
-        m.__loader__ = getattr(old, "__loader__", None)
-        exec(_code, m.__dict__)
-        sys.modules[old.__name__] = m
-        sys.modules["bits"].p2p = m
-        _p2p = m
+        _p2p = F.refresh(["bits.crypto", "bits.utils", "bits.p2p"] if reload == "all" else ["bits.p2p"])[-1]
     return _p2p
 
 
@@ -416,6 +406,8 @@ def execute(scenario, tape=None, keep_events=False):
             res.probes.hit("stat-new-file-although-record-fitted", ex.packing_not_greedy)
 
     only = sc.get("only_fault")
+    p2p_module()
+    p2p_module(reload="all")  # helper modules are renewed once per history, bits.p2p per execution
     base_plan = {}
     dry = _DryExec(sc, {}, keep_events=keep_events).run()
     if sc["benign_short_writes"]:
